@@ -11,6 +11,8 @@ pub fn def_use(
     function: &il::Function,
 ) -> Result<HashMap<il::ProgramLocation, LocationSet>, Error> {
     let rd = reaching_definitions::reaching_definitions(function)?;
+    // Uses read the state before their location executes.
+    let rd = reaching_definitions::reaching_definitions_in(function, &rd)?;
 
     let mut du: HashMap<il::ProgramLocation, LocationSet> = HashMap::new();
 
